@@ -2,12 +2,12 @@
 import OllamaVerif.Model.SchedChan
 namespace OllamaVerif.Generated.C01
 open OllamaVerif.Sched
-/-- extractor output: deletes=1 guardedDeletes=1 bareDeletes=0; guardDeleteAst=guarded; recheckInUse=present callerRetries=present; recheckGrantAst=present; deletesElsewhere=0; expiredCaseFound=true; expiredAtomic=true; unloadUnderLoadedMu=true; evictBlockFound=true; evictAtomic=true; enqueueNonBlocking=true; waitUnloadPure=true; unloadedChRecvArms=2; cap_pendingReqCh=envconfigMaxQueue; cap_finishedReqCh=envconfigMaxQueue; cap_expiredCh=envconfigMaxQueue; cap_unloadedCh=envconfigMaxQueue; expiredOrderFixed=true; idleDrains=true; unloadClosesOnce=true; sendSites=expiredCh:,expiredCh:loadedMu+refMu,expiredCh:refMu,finishedReqCh:,pendingReqCh:,unloadedCh:; inlinedHelpers=notifyFinished -/
+/-- extractor output: deletes=1 guardedDeletes=1 bareDeletes=0; guardDeleteAst=guarded; recheckInUse=present callerRetries=present; recheckGrantAst=present; deletesElsewhere=0; expiredCaseFound=true; expiredAtomic=true; unloadUnderLoadedMu=true; evictBlockFound=true; evictAtomic=true; enqueueNonBlocking=true; waitUnloadPure=true; unloadedChRecvArms=2; cap_pendingReqCh=envconfigMaxQueue; cap_finishedReqCh=envconfigMaxQueue; cap_expiredCh=envconfigMaxQueue; cap_unloadedCh=envconfigMaxQueue; expiredOrderFixed=true; idleDrains=true; unloadClosesOnce=true; sendSites=expiredCh:,expiredCh:loadedMu+refMu,expiredCh:refMu,finishedReqCh:,pendingReqCh:,unloadedCh:; inlinedHelpers= -/
 def extractorOutput : Unit := ()
 /-- the variant of the model the tree implements: each flag = (the real scheduler stays inside the property on the
     F12a resp. F12b witness schedules) AND (go/ast does not find an unguarded delete resp. a missing re-check);
-    probe ran=True guardDelete=False recheckGrant=True; go/ast guardDelete=guarded recheckGrant=present -/
-def treeVariant : Variant := ⟨false, true⟩
+    probe ran=True guardDelete=True recheckGrant=True; go/ast guardDelete=guarded recheckGrant=present -/
+def treeVariant : Variant := ⟨true, true⟩
 def deletesElsewhere : Nat := 0
 /-- the expired handler tests refCount and unloads in ONE critical section of refMu (no check-then-act window) -/
 def expiredAtomic : Bool := true
